@@ -481,7 +481,7 @@ func (c *Ctx) finish(p *Prop, kf *knownFile, evPath string, seed int, start time
 	}
 	sort.Strings(fns)
 	cov := map[string]interface{}{
-		"explanation":            p.Explanation,
+		"explanation":            fullExplanation(p),
 		"obligations":            len(obs),
 		"discharged":             discharged,
 		"evaluations":            len(obs),
